@@ -11,7 +11,7 @@ class Case:
         self.ops = ops            # symbolic op lines
         self.meta = meta or {}
         self.mode = mode          # "lib" (L1) or "http" (L2)
-    NEEDS_WRAPPER = ("fault", "rowfault", "sqlfault", "sqlfaultrb", "intrude", "intrudeafter", "slowcall", "lockbegin", "inst", "cfg", "hold", "usedir", "crashmid", "abort",
+    NEEDS_WRAPPER = ("fault", "rowfault", "sqlfault", "sqlfaultrb", "intrude", "intrudeafter", "slowcall", "lockbegin", "inst", "instpre", "cfg", "hold", "holdread", "usedir", "crashmid", "abort",
                      "loadstate", "savestate", "integrity")
     def text(self):
         ops = self.ops
